@@ -22,6 +22,9 @@ EXPLANATION = (
     "de-duplication guards are checked by must-pass-through rules. Decides the structural clauses only: the "
     "order inside one group and user-level traces of arbitrary machines are not decided."
 )
+EXPLANATION += (
+    " " + 'Spec equality is read as a boolean function of the comparisons it makes (true only when callable and group agree); under the async engine a callback has run only when its awaitable result was awaited, whatever produced it.'
+)
 ASSUMPTIONS = [
     "user programs reach the kernels only through the public API",
     "Python evaluates statements of a function body in textual order (trusted language semantics)",
